@@ -21,7 +21,7 @@ pub fn run(rep: &mut Rep) {
     let n = alpha.len() as u64;
     let len = if rep.quick() { 5 } else { 8 };
     let total = n.pow(len);
-    rep.note(&format!("exhaustive: all {total} sequences of length {len} over {{PUBLISH(QoS 2, id 1/2/3, DUP 0/1), PUBREL(id 1/2/3)}} delivered to a client with one live stream; stream items compared with the model's set of distinct QoS 2 messages after every packet"));
+    rep.note(&format!("exhaustive: all {total} sequences of length {len} over {{PUBLISH(QoS 2, id 1/2/3, DUP 0/1), PUBREL(id 1/2/3)}} delivered to a client with one live stream (CONNACK limits rotating through none / Receive Maximum 1 / Receive Maximum 2 + Maximum Packet Size 200); stream items compared with the model's set of distinct QoS 2 messages after every packet"));
     for idx in 0..total {
         let id = format!("exh:{len}:{idx}");
         if !rep.take(idx, &id) {
@@ -33,7 +33,9 @@ pub fn run(rep: &mut Rep) {
             seq.push(alpha[(k % n) as usize]);
             k /= n;
         }
-        let mut w = World::boot(WorldCfg { seed: rep.seed, ..Default::default() });
+        // the broker's own limits (Receive Maximum 1 / 2, a Maximum Packet Size) bind what the client sends, not what it receives
+        let (rmax, mps) = [(None, None), (Some(1u16), None), (Some(2), Some(200u32)), (None, None)][(idx % 4) as usize];
+        let mut w = World::boot(WorldCfg { seed: rep.seed, receive_max: rmax, max_packet: mps, ..Default::default() });
         let a = w.start(0, Kind::Sub);
         w.settle_check();
         w.deliver_ack(a, 1, 0, 0);
@@ -135,4 +137,9 @@ pub fn run(rep: &mut Rep) {
     };
     let walks = if rep.quick() { 200 } else { 4000 };
     walk_world(rep, "walk", walks, if rep.quick() { 250 } else { 600 }, &|s| World::boot(WorldCfg { seed: s, order: (s % 4) as u8, ..Default::default() }), &a);
+    let mut wr = a.clone();
+    wr.terms = vec![TermAct::Eof, TermAct::ReadErr, TermAct::ServerDisconnect { reason: 0x8b, form: 2, props: false }];
+    wr.reconnect = true;
+    rep.note("walks across connections: the same alphabet plus connection loss and reconnection of the same Context at PRNG points (session kept: the unreleased identifiers survive; session expired: they are forgotten, a re-delivery is a new message)");
+    walk_world(rep, "walkrc", walks, if rep.quick() { 250 } else { 600 }, &|s| World::boot(WorldCfg { seed: s, sei: if s % 4 == 0 { None } else { Some(3600) }, order: (s % 4) as u8, ..Default::default() }), &wr);
 }
